@@ -30,9 +30,11 @@
 EXTENDS Integers, Sequences, FiniteSets, TLC, SequencesExt
 
 CONSTANTS FieldBytes,  \* function: field name -> its bytes (TLC cannot order strings)
-          NormOf       \* function: <<field name, total length>> -> norm value
+          NormTable    \* field name -> sequence indexed by total length + 1 of norm values
 
 Dropped == -1          \* stands for math.MaxInt64 in document-number maps
+
+NormAt(f, len) == NormTable[f][len + 1]      \* the norm of a field of total length len
 
 -----------------------------------------------------------------------------
 (* Generic helpers *)
@@ -142,7 +144,7 @@ PostingOf(c, n, f, t) ==
         os  == OccsOf(doc, f, t)
     IN [doc  |-> n,
         freq |-> SumSeq([k \in DOMAIN os |-> os[k].freq]),
-        norm |-> NormOf[<<f, TotalLen(doc, f)>>],
+        norm |-> NormAt(f, TotalLen(doc, f)),
         locs |-> Flatten([k \in DOMAIN os |-> os[k].locs])]
 
 DocsWith(c, f, t) == {n \in 0..(Len(c.docs) - 1) : HasTerm(c.docs[n + 1], f, t)}
